@@ -70,6 +70,11 @@ class CollectionAttrMutator(metaclass=ABCMeta):
                     f"Cannot mutate attribute `{self.attr_spec.name}` of frozen spec class `{instance.__class__.__name__}`."
                 )
             collection = peek_attr(instance, self.attr_spec.name, inplace)
+            if inplace and self.attr_spec.name not in getattr(instance, "__dict__", {}):
+                # What was read is not the instance's own value under this
+                # name (e.g. an alias reading through to its target): editing
+                # it in place would edit somebody else's collection.
+                inplace = False
         if collection is not MISSING and not inplace:
             collection = protect_via_deepcopy(collection)
         self.collection = collection
